@@ -72,7 +72,12 @@ def execute_workflow(prog, predicates, con):
     prog.FormattedPredicateSql(p)
     executions.append(prog.execution)
 
+  calls = [0]
+
   def runner(sql, engine, is_final):
+    calls[0] += 1
+    if calls[0] > 20000:
+      raise RuntimeError('more than 20000 statements executed: the run does not terminate')
     if is_final:
       cur = con.execute(sql)
       return [d[0] for d in cur.description], cur.fetchall()
@@ -202,8 +207,16 @@ def run_schema(schema, tier, seed=0):
         if expected:
           res['nontrivial'] += 1
         ordered = p in schema.get('ordered', ())
-        ok = (list(map(tuple, rows)) == list(map(tuple, expected))) if ordered else \
-            (canon(rows) == canon(expected))
+        if schema.get('between'):
+          # set-valued program whose spec is a pair (lower, upper): everything derivable within the bound,
+          # nothing outside the least fixpoint, no row twice
+          lo_, hi_ = expected
+          got_ = set(map(tuple, rows))
+          ok = set(map(tuple, lo_)) <= got_ <= set(map(tuple, hi_)) and len(got_) == len(rows)
+          expected = lo_
+        else:
+          ok = (list(map(tuple, rows)) == list(map(tuple, expected))) if ordered else \
+              (canon(rows) == canon(expected))
         want_cols = schema.get('cols', {}).get(p)
         if ok and want_cols is not None and cols != want_cols:
           res['violation'] = {'predicate': p, 'db': db, 'detail': 'columns %r, contract says %r' % (
@@ -249,7 +262,14 @@ def run_workflow_schema(schema, prog, res, arities, domain, max_rows, cap, seed)
         res['evaluations'] += 1
         if expected:
           res['nontrivial'] += 1
-        if canon(rows) != canon(expected):
+        if schema.get('between'):
+          lo_, hi_ = expected
+          got_ = set(map(tuple, rows))
+          ok_ = set(map(tuple, lo_)) <= got_ <= set(map(tuple, hi_)) and len(got_) == len(rows)
+          expected = lo_
+        else:
+          ok_ = canon(rows) == canon(expected)
+        if not ok_:
           res['violation'] = {'predicate': p, 'db': db, 'asked_together': group,
                               'detail': 'rows %r, contract (spec) says %r' % (
                                   sorted(map(tuple, rows), key=repr)[:14], sorted(map(tuple, expected), key=repr)[:14]),
